@@ -44,6 +44,10 @@ public:
   template <class T>
   Context SetValues(T &values) noexcept
   {
+    if (values.begin() == values.end())
+    {
+      return *this;
+    }
     Context context                  = Context(values);
     nostd::shared_ptr<DataList> last = context.head_;
     while (last->next_ != nullptr)
